@@ -2,6 +2,7 @@ package gen
 
 import (
 	"fmt"
+	"strconv"
 
 	"verif/harness/ir"
 )
@@ -156,6 +157,18 @@ func BreakJSONRule(r *R, rule, pkgPrefix, tag string) *Broken {
 		bad.Oneofs = []*ir.Oneof{{Name: "content", HasConfig: true, Discriminator: sp("eventType"), Flatten: r.Bool()}}
 		bad.Fields = []*ir.Field{{Name: "event_type", Number: 1, Kind: "string"},
 			{Name: "text", Number: 2, Kind: "message", TypeName: pkgPrefix + C, Oneof: "content"}}
+		switch r.Intn(3) {
+		case 1:
+			// the colliding field is a proto3 optional (member of a synthetic oneof)
+			b.Variant = "colliding field is optional"
+			bad.Fields[0].Card = "optional"
+		case 2:
+			// the colliding field is a variant of a second, plain oneof
+			b.Variant = "colliding field in another oneof"
+			bad.Oneofs = append(bad.Oneofs, &ir.Oneof{Name: "extra"})
+			bad.Fields[0].Oneof = "extra"
+			bad.Fields = append(bad.Fields, &ir.Field{Name: "other", Number: 3, Kind: "int32", Oneof: "extra"})
+		}
 		b.Offender = "content"
 	case "oneof_flatten_scalar_variant":
 		b.Messages = append(b.Messages, child(C, "body"))
@@ -242,7 +255,9 @@ func BreakHTTPRule(r *R, rule, pkgPrefix, tag string) *Broken {
 		meth.Config = &ir.HTTPConfig{Path: "/things/{id}", Method: "POST"}
 		b.Offender = "id"
 	case "path_and_query":
-		bad.Fields = []*ir.Field{{Name: "id", Number: 1, Kind: "string", Ann: ir.Ann{Query: &ir.Query{Name: "id"}}}}
+		qn := Pick(r, []string{"id", "", "ident", "thing-id"})
+		b.Variant = "query name " + strconv.Quote(qn)
+		bad.Fields = []*ir.Field{{Name: "id", Number: 1, Kind: "string", Ann: ir.Ann{Query: &ir.Query{Name: qn}}}}
 		meth.Config = &ir.HTTPConfig{Path: "/things/{id}", Method: Pick(r, []string{"GET", "POST"})}
 		b.Offender = "id"
 	case "bodiless_unbound_fields":
